@@ -238,8 +238,8 @@ func walkPathK(t *testing.T, g *Graph, seed int64, path []Edge, known []knownFin
 	return step, mm, exp, got, steps
 }
 
-// walkProp is the property the running walk decides (VERIF_PROP).
-var walkProp string
+// walkProp is the property the running walk decides (VERIF_PROP), walkFamily the family of behaviours (VERIF_FAMILY).
+var walkProp, walkFamily string
 
 // softUnowned: every mismatch is of a kind that does not move the system away from the specification's state (a
 // finished transaction left in the client's table) and belongs to another property than the one being decided.  The
@@ -271,6 +271,7 @@ func TestWalk(t *testing.T) {
 	seed := envInt("VERIF_SEED", 1)
 	prop := os.Getenv("VERIF_PROP")
 	walkProp = prop
+	walkFamily = os.Getenv("VERIF_FAMILY")
 	frac := 1.0
 	if v := os.Getenv("VERIF_FRAC"); v != "" {
 		frac, _ = strconv.ParseFloat(v, 64)
